@@ -17,7 +17,7 @@ RULE = ('sequences of 1..5 documents over a pool of 12 relays and 6 nicknames (d
 TRUSTED = ["the classifiers of MicrodescriptorParser (anonymous lambdas over str.startswith) enter the model as typed lines; the harness renders typed lines to text",
            "TorState bootstrap against the fake Tor (circuit-status etc. empty)"]
 ASSUMPTIONS = ["WFDoc: r [a]* s [w] [p] per relay; identities distinct within one document; nicknames contain no '$'"]
-NICKS = ['alpha', 'bravo', 'Unnamed', 'Unnamed', 'charlie', 'delta']
+NICKS = ['alpha', 'bravo', 'Unnamed', 'Unnamed', 'charlie', 'delta', '4everTor', 'x', 'Nineteen0Characters', '007']
 FLAGS = ['Guard', 'Authority', 'Named', 'Fast', 'Exit', 'Running', 'Stable', 'guard', 'AUTHORITY']
 
 
